@@ -55,7 +55,7 @@ def describe(tier):
             "identity) - those are what the solver quantifies over.  Oracle on every output: ids unique, every url(#)/href resolves "
             "to a gradient in defs, every gradient in defs is referenced."
         ),
-        "bounds": {"templates": "every special template + a seed-rotated quarter of the C02-C06 families (quick) / all except the heavy C06 matrix templates and C02:matrix_chain (thorough)"},
+        "bounds": {"templates": "every special template + a seed-rotated quarter of the C02-C06 families (quick) / all except the heavy C06 matrix templates, C02:matrix_chain and C02:four_levels (thorough)"},
         "outside": PIPE_OUTSIDE,
         "stubs": common.mods().stubs + FP.CONTRACT,
         "assumptions": FP.CONTRACT + ["floats as reals"],
